@@ -415,15 +415,25 @@ func formatAmountQuantity(amount *ast.Amount, commodityFormats map[string]Number
 	if commodityFormats != nil {
 		// First try specific commodity format
 		if format, ok := commodityFormats[amount.Commodity.Symbol]; ok {
-			return FormatNumber(amount.Quantity, format)
+			return FormatNumber(amount.Quantity, keepPrecision(format, amount))
 		}
 		// Then try default format (stored under empty key)
 		if format, ok := commodityFormats[""]; ok {
-			return FormatNumber(amount.Quantity, format)
+			return FormatNumber(amount.Quantity, keepPrecision(format, amount))
 		}
 	}
 	if amount.RawQuantity != "" {
 		return amount.RawQuantity
 	}
 	return amount.Quantity.String()
+}
+
+// keepPrecision widens a display format to the number of decimals the amount was written
+// with, so that rewriting a posting never rounds the quantity recorded in the journal.
+func keepPrecision(format NumberFormat, amount *ast.Amount) NumberFormat {
+	if places := -int(amount.Quantity.Exponent()); places > 0 && (!format.HasDecimal || places > format.DecimalPlaces) {
+		format.HasDecimal = true
+		format.DecimalPlaces = places
+	}
+	return format
 }
